@@ -770,6 +770,53 @@ def run_life_sweep(victim, k, cause="eof", seed=1):
         sc.close_scenario()
 
 
+def run_start_sweep(k, refused=True, seed=1):
+    """One-preemption sweep over Diameter.start(): the application thread is stopped after k line-level steps of
+    start() (state machine thread created, transport being created / connected / registered / started) while the new
+    state machine thread runs as far as it can (a refused connection is noticed at once), then resumed."""
+    sc = Scenario("client", seed * 3, preempt={"opcode": (), "line": ("start", "run")})
+    n, s = sc.n, sc.s
+    try:
+        n.generation += 1
+        n.sock = vsched.FakeSock()
+        n.sock.refused = refused
+        vsched.NEXT_SOCKS.append(n.sock)
+        starter = s.spawn("app_start1", n.d.start)
+        n.starter = starter
+        ended = False
+        for i in range(k):
+            if starter.done or s.enabled(starter) != "go":
+                ended = True
+                break
+            s.step(starter)
+        psm = n.psm_thread
+        if psm is not None:
+            for _ in range(3000):
+                if psm.done or s.enabled(psm) != "go" or (s.is_idle(psm)):
+                    break
+                s.step(psm)
+            if not refused:
+                n.peer_close()
+        for _ in range(3000):
+            if starter.done or s.enabled(starter) != "go":
+                break
+            s.step(starter)
+        if not refused and psm is None:
+            n.peer_close()
+        try:
+            sc.run(until=lambda: n.state() == "Closed" and all(t.done for t in s.threads), limit=30000)
+            end = sc.settle(limit=6000, timer_rounds=12)
+        except vsched.Deadlock as e:
+            end = "deadlock: " + str(e)
+        except (vsched.StepLimit, vsched.StepHang) as e:
+            end = type(e).__name__ + ": " + str(e)
+        problems = life_verdict(sc, [], end)
+        return ("; ".join(problems) if problems else None), {"ended": ended or starter.done and k > 0 and False, "end": end,
+                                                              "start_raised": type(starter.exc).__name__ if starter.exc else None}
+    finally:
+        sc.close_scenario()
+
+
 def frames_of(n):
     from bromelia.base import DiameterMessage
     fr, _rest = split_frames(bytes(n.sock.sent))
